@@ -512,6 +512,16 @@ impl Regex {
     ) -> exec::Matches<super::classicalbacktrack::BacktrackExecutor<'r, indexing::Utf16Input<'t>>>
     {
         let input = Utf16Input::new(text, self.cr.flags.unicode);
+        // A start index in the middle of a surrogate pair designates that pair, as in
+        // JavaScript: matching must not begin between the two halves of a character,
+        // because the input is decoded pair-wise in both directions.
+        let start = match (
+            start.checked_sub(1).and_then(|i| text.get(i)),
+            text.get(start),
+        ) {
+            (Some(0xD800..=0xDBFF), Some(0xDC00..=0xDFFF)) => start - 1,
+            _ => start,
+        };
         exec::Matches::new(
             super::classicalbacktrack::BacktrackExecutor::new(
                 input,
